@@ -74,6 +74,11 @@ func (n *Node) IsUniversal(tag int) bool {
 	return n != nil && n.Class == ClassUniversal && n.Tag == tag
 }
 
+// IsPrimitive reports whether n is a primitive universal-class node with the given tag number.
+func (n *Node) IsPrimitive(tag int) bool {
+	return n != nil && n.Class == ClassUniversal && n.Tag == tag && !n.Constructed
+}
+
 // IsContext reports whether n is a context-specific node with the given tag number.
 func (n *Node) IsContext(tag int) bool { return n != nil && n.Class == ClassContext && n.Tag == tag }
 
